@@ -90,6 +90,7 @@ def related(a, b):
 class DesignPart(Part):
     isolate = True
     vcap = 6
+    thorough_cap = 2400          # analyser-level paths cost seconds each: a thorough part stops after 40 min and reports exhaustive=false for the rest
 
     def bases(self, chk):
         if not hasattr(chk, '_design_bases'):
